@@ -26,7 +26,7 @@ RULE = ("random forests: names chosen to sort before/after directory names and t
         "a share of cases; thorough: exhaustive presence patterns of <= 4 paths of mixed depth x 3 replicas; non-trivial = at least two "
         "paths of different depth; distinct = distinct request")
 
-NAMES = ["a", "b", "d", "d1", "d2", "a.txt", "z", "0", "d.x", "sub", "B", "_", "é", "a b", "d-1"]
+NAMES = ["a", "b", "d", "d1", "d2", "a.txt", "z", "0", "d.x", "sub", "B", "_", "é", "a b", "d-1", "a.txt ", "a ", " a"]
 
 
 # replica folders are given on the command line in THIS order, which is not their alphabetical order ("order matters")
@@ -39,7 +39,7 @@ def rr():
     return replication_repair
 
 
-DIRS = ["a", "a-b", "a.c", "a b", "ab", "a+", "a#x", "a_", "b", "photos", "photos-raw", "d1", "d2", "é", "Z"]
+DIRS = ["a", "a-b", "a.c", "a b", "ab", "a+", "a#x", "a_", "b", "photos", "photos-raw", "d1", "d2", "é", "Z", "a.", "a ", " photos"]
 
 
 def gen_universe(rng):
